@@ -1,5 +1,6 @@
 import operator
 from contextlib import contextmanager
+from copy import copy as _copy
 from functools import reduce, total_ordering
 from itertools import groupby
 from math import isinf, isnan
@@ -131,7 +132,15 @@ def as_model(x):
 
 
 def replace_hy_obj(obj, other):
-    return as_model(obj).replace(other)
+    new = as_model(obj)
+    if new is obj and any(
+            not hasattr(new, a) and hasattr(other, a) for a in Object.properties):
+        # `replace` would fill in position attributes on `obj`
+        # itself. `obj` can be part of somebody else's model (e.g., an
+        # argument of a macro call that the macro returned as is), so
+        # fill them in on a copy instead.
+        new = _copy(new)
+    return new.replace(other)
 
 
 def repr_indent(obj):
